@@ -258,6 +258,20 @@ impl<'a> Trainer<'a> {
                     .map_err(|e| VaporettoError::invalid_argument("dict_words", e.to_string()))?,
             )
         };
+        #[cfg(feature = "verif-hooks")]
+        {
+            use crate::verif_hooks::{describe_sentence, dump_line};
+            dump_line(&alloc::format!(
+                "N {char_window_size} {char_ngram_size} {type_window_size} {type_ngram_size} {dict_word_max_len}"
+            ));
+            for w in &dict_words {
+                let hex: String = w.bytes().map(|b| alloc::format!("{b:02x}")).collect();
+                dump_line(&alloc::format!("D {hex}"));
+            }
+            for s in tag_dictionary {
+                dump_line(&alloc::format!("T {}", describe_sentence(s)));
+            }
+        }
         let mut default_tags = HashMap::new();
         for s in tag_dictionary {
             for token in s.iter_tokens() {
@@ -349,6 +363,11 @@ impl<'a> Trainer<'a> {
 
     /// Adds a sentence to the trainer.
     pub fn add_example<'b>(&mut self, sentence: &'a Sentence<'a, 'b>) {
+        #[cfg(feature = "verif-hooks")]
+        crate::verif_hooks::dump_line(&alloc::format!(
+            "E {}",
+            crate::verif_hooks::describe_sentence(sentence)
+        ));
         let mut examples = vec![];
         self.gen_features(sentence, &mut examples);
         for (features, b) in examples {
